@@ -9,7 +9,7 @@
    Start n        : computation.start(): running := True, on_start(), then the messages
                     received before start are re-injected (with priority 19, i.e. ahead of
                     everything still queued from the same sender) in the order
-                    [reinject] gives (the code pops its buffer from the END).
+                    [reinject] gives (reception order).
    Deliver s d    : pop the head of channel (s,d) and call d.on_message(s, m): handled if d
                     is running, otherwise stored in d's buffer.
    Actions that are not enabled (Start of a running node, Deliver on an empty channel) are
@@ -52,9 +52,9 @@ Section Net.
     | (d, m) :: r => send_all (upd_chan c src d (c src d ++ [m])) src r
     end.
 
-  (* the order in which start() re-posts the messages it held: the code does
-     [while buf: buf.pop()], i.e. last received first *)
-  Definition reinject (l : list (node * Msg)) : list (node * Msg) := rev l.
+  (* the order in which start() re-posts the messages it held: since /repo fix 97ceda3 the
+     code does [buf.pop(0)], i.e. oldest first (before that fix: [buf.pop()], newest first) *)
+  Definition reinject (l : list (node * Msg)) : list (node * Msg) := l.
 
   (* re-injected messages overtake what is still queued from the same sender and keep their
      re-injection order: pushing the list at the head of the channels, last element first *)
